@@ -280,6 +280,16 @@ def f22_same_file_by_spelling(xcp, d):
         bad.append("../in/g f .: exit %d, out now holds %s" % (rc, sorted(os.listdir(os.path.join(w, "out")))))
     return bad
 
+def f23_dir_onto_file_multi(xcp, d):
+    """C16: `xcp -r a sd dest` with dest/sd a regular file is rejected before dest/a is created"""
+    w = os.path.join(d, "w")
+    for x in ("a", "sd", "dest"):
+        os.makedirs(os.path.join(w, x))
+    open(os.path.join(w, "a", "1"), "w").write("1\n"); open(os.path.join(w, "sd", "2"), "w").write("2\n"); open(os.path.join(w, "dest", "sd"), "w").write("file\n")
+    rc, err = run(xcp, ["-r", "a", "sd", "dest"], w)
+    left = sorted(os.listdir(os.path.join(w, "dest")))
+    return [] if rc != 0 and left == ["sd"] else ["exit %d, dest now holds %s" % (rc, left)]
+
 ALL = {"new:create-before-identity-check": f1_self_copy, "parfile:symlink-result-discarded": f2_symlink_result,
        "copy_node:dev-not-rdev": f3_device_number, "parblock:short-copy-not-retried": f5_short_copy,
        "walker:deref-does-not-follow-dir-links": f8_deref_dir_link, "finalise:chown-after-chmod": f9_setid_ownership,
@@ -294,7 +304,8 @@ ALL = {"new:create-before-identity-check": f1_self_copy, "parfile:symlink-result
        "main:block-size-zero": f19_block_size_zero,
        "backup:readdir-error-swallowed": f20_backup_readdir_error,
        "uspace-range:eof-is-an-error": f21_parblock_fallback_eof,
-       "main:same-file-by-spelling-only": f22_same_file_by_spelling}
+       "main:same-file-by-spelling-only": f22_same_file_by_spelling,
+       "main:dir-onto-file-multi-source": f23_dir_onto_file_multi}
 
 def main():
     repo = sys.argv[1]
